@@ -14,6 +14,7 @@ B2  long random runs with random addresses are recorded byte for byte and valida
 Features attached to violations (for known_findings.json):
   B1: {"kind":"b1","clause":"sends"|"state","what":...,"act":"C"|"H"|..,"k":<class>,"after_self_addressed":bool[,"msg":<label>]}
   B2: {"kind":"b2","clause":"C.sent"|"C.state"|"H.sent"|"H.state","k":<class>,"after_self_addressed":bool[,"msg":<label>]}
+  B2 failures inside an address-churn run additionally carry "churn": true.
   after_self_addressed: an earlier, well-formed viewer datagram of the same association was addressed
   to that viewer's own address ("msg" is omitted then: every later viewer datagram is affected).
   "<Name>/0" labels a message whose Variable blocks all have zero instances.
@@ -32,7 +33,8 @@ from . import common
 from .common import Check, Graph, impl_call
 
 INVS = ["TypeOK", "ClaimConsistent", "CircuitsAnchored"]
-PROPS = ["GhostsRight", "ClaimRule", "DeliveredOnce", "UseCircuitRule", "DiscardsInert", "NoCrossTalk", "OnlyNamedChanges"]
+PROPS = ["GhostsRight", "ClaimRule", "DeliveredOnce", "UseCircuitRule", "DiscardsInert", "NoCrossTalk", "OnlyNamedChanges",
+         "OpenStaysDeliverable"]
 SOCKS_BAD = ("badrsv", "badfrag", "badatyp", "shortsocks")
 LLUDP_BAD = ("short", "unkmsg")
 KILL_NAMES = ("CloseCircuit", "DisableSimulator")
@@ -897,13 +899,127 @@ def _clip_trace(evs):
     return [{k: (v[:48] + ["..."] if isinstance(v, list) and len(v) > 48 else v) for k, v in e.items()} for e in evs if e]
 
 
+def _churn_walk(pool: Pool, seed, NA, NS, NH, n_far):
+    """Address churn: circuits are opened, then the viewer addresses n_far datagrams of the discard
+    classes (no circuit / undecodable / banned / domain name) to n_far DISTINCT far hosts nobody has
+    a circuit with, interleaved with datagrams FROM the open-circuit simulators, each of which must be
+    delivered exactly once whatever was discarded before.  In the first 70% the viewer never writes to
+    its simulators (nothing refreshes whatever the proxy remembers about them); afterwards it does."""
+    rng = random.Random(seed)
+    clients, sims, unk = _rand_addrs(rng, NA, NH)
+    w = World(pool, clients, sims, unk, NA, NS, NH, rng)
+    evs = [{"ev": "Cfg", "clients": clients, "sims": sims}]
+    stats = {"fwd_c": 0, "fwd_h": 0, "discards": 0, "names": set(), "selfie": {}, "churn": n_far}
+    taken = {(tuple(e["ip"]), e["port"]) for e in clients + sims}
+
+    def sent_json(sends):
+        return [{"via": v, "data": list(d), "to": _ipb(t)} for v, d, t in sends]
+
+    def sock_hdr(e):
+        return b"\x00\x00\x00\x01" + bytes(e["ip"]) + struct.pack("!H", e["port"])
+
+    def fresh():
+        while True:
+            mode = rng.randrange(4)
+            base = sims[0] if mode == 0 else clients[0] if mode == 1 else None   # same host other port / elsewhere
+            e = {"ip": list(base["ip"]) if base else [rng.choice([10, 172, 192, 8, 100]), rng.randrange(256), rng.randrange(256), rng.randrange(1, 255)],
+                 "port": rng.randrange(1, 65536)}
+            key = (tuple(e["ip"]), e["port"])
+            if key not in taken:
+                taken.add(key)
+                return e
+
+    def viewer(a, dgram, k, s, label):
+        sends, raised = w.recv(a, dgram, w.clients[a - 1])
+        evs.append({"ev": "C", "a": a, "src": clients[a - 1], "data": list(dgram), "k": k, "s": s, "label": label,
+                    "sent": sent_json(sends), "raised": raised or "", "proj": w.proj()})
+        stats["fwd_c" if sends else "discards"] += 1
+
+    def far(a, src, k, s=0):
+        label, pl = w.payload("H", k, s)
+        sends, raised = w.recv(a, pl, _addr(src))
+        evs.append({"ev": "H", "a": a, "src": src, "data": list(pl), "k": k, "s": s, "label": label,
+                    "sent": sent_json(sends), "raised": raised or "", "proj": w.proj()})
+        if sends:
+            stats["fwd_h"] += 1
+            stats["names"].add(label)
+        else:
+            stats["discards"] += 1
+    # set-up: the churning association a with its session, one or two open circuits; sometimes the
+    # other association is live as well
+    a = rng.randrange(1, NA + 1)
+    live = {}
+    for b in ([a] + ([x for x in range(1, NA + 1) if x != a] if rng.random() < 0.5 else [])):
+        s = b if b <= NS else 0
+        if not s:
+            continue
+        h = ((s - 1) % NH) + 1
+        del w.sink[:]
+        w.login(s, h)
+        _pump()
+        evs.append({"ev": "Login", "s": s, "sent": sent_json(w.sink), "proj": w.proj()})
+        hs = [h]
+        if rng.random() < 0.6:
+            h2 = rng.choice([x for x in range(1, NH + 1) if x != h])
+            del w.sink[:]
+            w.add_region(s, h2)
+            _pump()
+            evs.append({"ev": "Reg", "s": s, "h": h2, "sent": sent_json(w.sink), "proj": w.proj()})
+            hs.append(h2)
+        for hh in hs:
+            label, pl = w.payload("C", "ucc", s)
+            viewer(b, sock_hdr(sims[hh - 1]) + pl, "ucc", s, label)
+        live[b] = (s, hs)
+    s, hs = live[a]
+    strangers = []
+    quiet_until = int(n_far * 0.7)
+    done = 0
+    while done < n_far:
+        c = rng.random()
+        if c < 0.72:
+            tgt = fresh()
+            k = rng.choice(["msg"] * 5 + ["banned", "badbody", "short", "unkmsg", "ucc", "dom"])
+            label, pl = w.payload("C", "msg" if k == "dom" else k, s if k == "ucc" else 0)
+            if k == "dom":
+                nm = ("h%d.example" % done).encode()
+                dgram = b"\x00\x00\x00\x03" + bytes([len(nm)]) + nm + struct.pack("!H", tgt["port"]) + pl
+            else:
+                dgram = sock_hdr(tgt) + pl
+                strangers.append(tgt)
+            viewer(a, dgram, k, s if k == "ucc" else 0, label)
+            done += 1
+        elif c < 0.92:
+            far(a, sims[rng.choice(hs) - 1], rng.choice(["msg"] * 8 + ["ucc", "badbody"]))
+        elif c < 0.95 and strangers:
+            far(a, rng.choice(strangers), rng.choice(["msg", "msg", "unkmsg"]))     # a stranger the viewer once wrote to
+        elif c < 0.97 and len(live) > 1:
+            b = next(x for x in live if x != a)
+            far(b, sims[rng.choice(live[b][1]) - 1], "msg")
+        elif done >= quiet_until:
+            label, pl = w.payload("C", "msg")
+            viewer(a, sock_hdr(sims[rng.choice(hs) - 1]) + pl, "msg", 0, label)
+    for hh in hs:      # and at the very end every circuit still works in both directions
+        far(a, sims[hh - 1], "msg")
+        label, pl = w.payload("C", "msg")
+        viewer(a, sock_hdr(sims[hh - 1]) + pl, "msg", 0, label)
+        far(a, sims[hh - 1], "msg")
+    w.close()
+    for i, e in enumerate(evs):
+        e["i"] = i
+    return evs, stats
+
+
 def _walk_chunk(args):
-    return [_walk(_POOL, seed, NA, NS, NH, length) for seed, NA, NS, NH, length in args]
+    return [(_churn_walk if churn else _walk)(_POOL, seed, NA, NS, NH, length) for seed, NA, NS, NH, length, churn in args]
 
 
-def _b2(chk: Check, n_walks, length, label):
+def _b2(chk: Check, n_walks, length, label, churn=()):
+    """n_walks random walks of `length` events plus one address-churn walk per entry of `churn`
+    (number of distinct stranger addresses the viewer writes to)."""
     NA, NS, NH = 2, 2, 3
-    args = [(chk.rng.randrange(1 << 62), NA, NS, NH, length) for _ in range(n_walks)]
+    args = [(chk.rng.randrange(1 << 62), NA, NS, NH, length, False) for _ in range(n_walks)]
+    args += [(chk.rng.randrange(1 << 62), NA, NS, NH, n, True) for n in churn]
+    chk.rng.shuffle(args)
     t0 = time.time()
     res = [x for part in common.parallel_map(_walk_chunk, common.chunked(args, common.NCPU)) for x in part]
     chk.notes.append("B2 %s: %d walks recorded in %.1fs" % (label, n_walks, time.time() - t0))
@@ -945,18 +1061,28 @@ def _b2(chk: Check, n_walks, length, label):
                         "after_self_addressed": ex["ev"] == "C" and first is not None and first < int(parts[3])}
                 if not feat["after_self_addressed"]:
                     feat["msg"] = parts[2]
+                if res[tid][1].get("churn"):
+                    feat["churn"] = True     # an address-churn run: many distinct far addresses were written to before
             if common.skey(feat) in seen:
                 continue
             seen.add(common.skey(feat))
             chk.violation("B2 %s: %s%s" % (label, " ".join(parts[:3]), ", after a datagram addressed to the viewer itself"
                                            if feat.get("after_self_addressed") else ""), feat,
                           {"failed_clauses": fl[:5], "cfg": traces[tid][0], "event": _clip_trace([ex] if ex else []),
+                           "distinct_far_addresses_written_to_before_by_that_association": len({
+                               tuple(e["data"][3:10] if e.get("k") != "dom" else e["data"][3:7 + e["data"][4]])
+                               for e in traces[tid][:int(parts[3])]
+                               if e.get("ev") == "C" and e.get("a") == ex.get("a") and e.get("k") not in SOCKS_BAD
+                           }) if ex else None,
                            "before": _clip_trace(traces[tid][max(1, int(parts[3]) - 4):int(parts[3])] if ex else [])})
     names = set()
     for i, (t, stats) in enumerate(res):
         names |= stats["names"]
         if stats["fwd_c"] >= 3 and stats["fwd_h"] >= 3 and stats["discards"] >= 3:
             chk.nontrivial(("walk", label, i))
+        if stats.get("churn"):
+            chk.cov["b2_churn_walks"] = chk.cov.get("b2_churn_walks", 0) + 1
+            chk.cov["b2_churn_max_distinct_far_addresses"] = max(chk.cov.get("b2_churn_max_distinct_far_addresses", 0), stats["churn"])
     chk.cov["b2_message_labels_forwarded"] = max(chk.cov.get("b2_message_labels_forwarded", 0), len(names))
     ok = next((i for i in range(len(traces)) if i not in fails), 0)
     chk.sample({"binding": "B2 trace (first events)", "events": [
@@ -970,7 +1096,9 @@ def run(chk: Check):
         "B1: every edge of the exhaustively enumerated model (datagram classes x associations x far hosts x UseCircuitCode "
         "sessions, logins, region registrations, in every reachable public state) replayed into the real proxy objects in two "
         "address layouts, full output + public state compared; non-trivial = edges that must forward something or change the "
-        "state.  B2: random byte-level runs validated by TLC; non-trivial = runs with >= 3 forwards in each direction and >= 3 discards.")
+        "state.  B2: random byte-level runs validated by TLC; non-trivial = runs with >= 3 forwards in each direction and >= 3 discards; they include "
+        "address-churn runs: open circuits, then hundreds (thorough: up to 4200) of discard-class datagrams to DISTINCT stranger "
+        "addresses interleaved with simulator datagrams that must each still be delivered exactly once.")
     chk.assumptions += [
         "no addon is loaded; ChatFromViewer is never on the addon command channel 524",
         "a viewer that already holds a session names that session in UseCircuitCode; one source address per viewer",
@@ -989,9 +1117,9 @@ def run(chk: Check):
                        "banned": len(_POOL.banned["H"]), "excluded": _POOL.excluded[:20]}
     if quick:
         _b1(chk, dict(NA=2, NS=2, NH=2, Dyn="TRUE"), "2x2x2", layouts="alternate")
-        _b2(chk, 48, 120, "rand")
+        _b2(chk, 48, 120, "rand", churn=[150, 300, 300, 450])
     else:
         _b1(chk, dict(NA=2, NS=2, NH=2, Dyn="TRUE"), "2x2x2")
         _b1(chk, dict(NA=2, NS=2, NH=3, Dyn="TRUE"), "2x2x3", layouts="alternate")
-        _b2(chk, 640, 160, "rand")
+        _b2(chk, 640, 160, "rand", churn=[100, 200, 300, 400, 600, 800] * 6 + [1500, 2500, 4200, 4200])
     chk.cov["exhaustive"] = True
